@@ -50,7 +50,7 @@ def gx_ctShapeOk (l : Level) (ct : Ct) : Bool :=
 def gx_ctMetaValid (l : Level) (ct : Ct) (scaleIsOne scaleIsZero : Bool) : Bool :=
   decide (ct.polys.size = 0 ∨ (2 ≤ ct.polys.size ∧ ct.polys.size ≤ 16)) &&
   (match l.scheme with | .bfv | .bgv => scaleIsOne | .ckks => !scaleIsZero) &&
-  (match l.scheme with | .bfv | .ckks => decide (ct.cf = 1) | .bgv => decide (ct.cf ≠ 0 ∧ ct.cf ≤ l.t.value))
+  (match l.scheme with | .bfv | .ckks => decide (ct.cf = 1) | .bgv => decide (ct.cf ≠ 0 ∧ ct.cf < l.t.value))
 
 theorem gx_ctValid_split (l : Level) (ct : Ct) (s1 s0 : Bool) :
     ctValid l ct s1 s0 = (gx_ctMetaValid l ct s1 s0 && gx_ctShapeOk l ct) := by
